@@ -23,6 +23,16 @@ class MetaFrameModel:
         return NI
 
     def call_method(self, I, st, recv, name, args, kwargs, node):
+        from ..values import Cursor
+        if isinstance(recv, Cursor) and name == "get" and args:
+            # row.get(column, default) on a row dict of the metadata frame: the column's value when the frame has that column
+            from ..values import norm_str
+            fr = st.obj(recv.frame)
+            col = norm_str(args[0])
+            if isinstance(col, str) and col in fr.cols:
+                return I.get_item(st, recv, col, node)
+            if isinstance(col, str):
+                return args[1] if len(args) > 1 else None
         if isinstance(recv, Ref) and isinstance(st.obj(recv), FrameObj):
             o = st.obj(recv)
             if name == "to_dicts":
